@@ -7,6 +7,18 @@ ROOT = "/verif"
 
 # id -> (technique, level text, level note, design ref)
 CHECKS = {
+ "C10": ("stateful proptest (input/flush/guard sequences) against a reference map per flush epoch; real producer threads for the worker sink; termination by counting flush() calls on a probe",
+         "Generated sequences of keyed inputs, flushes and merge-on-drop guards through KeyedAggregator, TeeSink (incl. a hand-written colliding-hash Cow key and a non-aggregating branch), WorkerSink with 1-4 producers, embedded Aggregate and MutexSink: one aggregate per key per flush with exact sums / distributions / keep-last, conservation over all epochs, flush barrier, worker termination after the last handle is dropped.",
+         "Reference accumulator is a BTreeMap written from the docs; worker/producer interleavings sampled natively.",
+         "DESIGN.md §2 C10"),
+ "C17": ("stateful proptest histories over worker threads and tokio runtimes against a reference routing state machine; append-vs-detach race; child processes for forget()",
+         "Model-based: generated histories of attach / detach / thread-local and runtime test-sink installs / appends (incl. every documented panic path) on a harness-declared global and on ServiceMetrics; tagged collectors must hold exactly the model's (destination, entry) list after every append; appends racing with a detach are accounted for exactly; forget() histories run in child processes.",
+         "One history at a time per process (statics); thread/runtime identity by index; races sampled.",
+         "DESIGN.md §2 C17"),
+ "C20": ("proptest multi-phase scripts with real updater/reader threads; conservation invariants over all readouts; RecLog replay of each readout",
+         "Generated update scripts (counter increments, histogram samples, gauge sets, describe calls) run on 1-8 threads while a reader thread calls readout() at generated points: counter deltas sum to the increments, histogram bucket counts to the samples (values within bucket error), gauges read the last set value, every readout writes names / label-dimensions / described units / injected timestamp and is accepted by Emf::all_validations.",
+         "Update/readout interleavings sampled natively; one writer per gauge key; units asserted at quiescent points.",
+         "DESIGN.md §2 C20"),
  "C06": ("exhaustive enumeration of drop orders (bounded counts) + proptest long sequences + thread-distributed final drops; 15-line reference model of the keep-alive protocol; counting sink with started-flag snapshots",
          "Model-based: every well-formed sequence of guard/handle/owner creations and drops up to length 8 (quick) / 10 (thorough) is executed on a real #[metrics] entry with append_on_drop, the sink's count compared with the model after every operation; random sequences to length 60; remaining objects dropped by 2-4 racing threads with a generated schedule, the append instant checked against the model condition.",
          "Arc/Mutex internals run natively; thread placement is sampled. For concurrent drops only a necessary condition (flags set before each drop) is asserted.",
